@@ -342,3 +342,57 @@ package rapid
 //@   loop 0 invariant [C03] repeatInv(repeat) && groupUsed(repeat) && len(b.buf) <= maxLen
 //@   loop 0 invariant [C03] repeat.minCount == minOf(g.minRunes) && repeat.maxCount == maxOf(g.maxRunes) && maxLen == maxOf(g.maxLen)
 //@   loop 0 invariant [C03] runesWritten - old(runesWritten) == repeat.count
+
+// ---------------------------------------------------------------------------------------------
+// data.go: the two stream implementations, proved against concrete contracts that refine the
+// bitStream interface contract under the abstraction  drawn = pos(s),  gbegin[i] = begin of group i
+// (persisting stream) resp. gbegin[i] = i (non-persisting stream, where the token is the position).
+
+//@ define pos(rec) = ite(rec.persist, len(rec.data), rec.dataLen)
+
+//@ func (*recordedBits).record
+//@   requires [C04] 0 <= rec.dataLen && rec.dataLen < math.MaxInt
+//@   ensures [C04] 0 <= rec.dataLen
+//@   ensures [C04] implies(rec.persist, len(rec.data) == old(len(rec.data)) + 1 && rec.data[old(len(rec.data))] == u && rec.dataLen == old(rec.dataLen))
+//@   ensures [C04] implies(rec.persist, forall(k, 0, old(len(rec.data)), rec.data[k] == old(rec.data[k])))
+//@   ensures [C04] implies(!rec.persist, rec.dataLen == old(rec.dataLen) + 1 && len(rec.data) == old(len(rec.data)))
+//@   ensures [C04] rec.persist == old(rec.persist)
+//@   ensures [C04] arr(rec.data) == old(arr(rec.data)) || fresh(arr(rec.data))
+//@   modifies rec.data, rec.dataLen, elems(rec.data)
+
+//@ func (*bufBitStream).drawBits
+//@   requires [C04,C13] arr(s.buf) != arr(s.data)
+//@   ensures [C04,C13] arr(s.buf) != arr(s.data)
+//@   requires [C03,C04,C13] n >= 0
+//@   requires [C04] 0 <= s.dataLen && s.dataLen < math.MaxInt
+//@   ensures [C04,C13] result == old(s.buf[0]) & mask(n)
+//@   ensures [C04,C13] len(s.buf) == old(len(s.buf)) - 1
+//@   ensures [C04,C13] forall(k, 0, len(s.buf), s.buf[k] == old(s.buf[k+1]))
+//@   ensures [C04] pos(s) == old(pos(s)) + 1 && s.persist == old(s.persist)
+//@   ensures [C04] implies(s.persist, s.data[old(len(s.data))] == result)
+//@   panics invalidData [C03,C13]: old(len(s.buf)) == 0 && len(s.buf) == 0 && pos(s) == old(pos(s))
+//@   modifies s.buf, s.data, s.dataLen, elems(s.data)
+
+//@ func (*randomBitStream).drawBits
+//@   requires [C03,C04] n >= 0
+//@   requires [C04] 0 <= s.dataLen && s.dataLen < math.MaxInt
+//@   ensures [C03,C04] implies(n <= 64, result <= mask(n)) && implies(n > 64, result == math.MaxUint64)
+//@   ensures [C04] pos(s) == old(pos(s)) + 1 && s.persist == old(s.persist)
+//@   ensures [C04] implies(s.persist, s.data[old(len(s.data))] == result)
+//@   modifies all(s.ctx), s.data, s.dataLen, elems(s.data)
+
+//@ func (*recordedBits).beginGroup
+//@   requires [C04] 0 <= rec.dataLen
+//@   ensures [C04] implies(!rec.persist, result == rec.dataLen && len(rec.groups) == old(len(rec.groups)))
+//@   ensures [C04] implies(rec.persist, result == old(len(rec.groups)) && len(rec.groups) == result + 1 && rec.groups[result].begin == len(rec.data) && rec.groups[result].end == -1 && rec.groups[result].standalone == standalone && !rec.groups[result].discard)
+//@   ensures [C04] implies(rec.persist, forall(k, 0, old(len(rec.groups)), rec.groups[k].begin == old(rec.groups[k].begin) && rec.groups[k].end == old(rec.groups[k].end) && rec.groups[k].discard == old(rec.groups[k].discard) && rec.groups[k].standalone == old(rec.groups[k].standalone)))
+//@   ensures [C03,C04] result >= 0
+//@   modifies rec.groups, elems(rec.groups)
+
+//@ func (*recordedBits).endGroup
+//@   requires [C04] implies(rec.persist, 0 <= i && i < len(rec.groups))
+//@   ensures [C04] discard || implies(!rec.persist, rec.dataLen > i) && implies(rec.persist, len(rec.data) > old(rec.groups[i].begin))
+//@   ensures [C04] implies(rec.persist, rec.groups[i].end == len(rec.data) && rec.groups[i].discard == discard && rec.groups[i].begin == old(rec.groups[i].begin))
+//@   ensures [C04] implies(rec.persist, forall(k, 0, len(rec.groups), k == i || rec.groups[k].begin == old(rec.groups[k].begin) && rec.groups[k].end == old(rec.groups[k].end) && rec.groups[k].discard == old(rec.groups[k].discard)))
+//@   panics string [C04]: !discard && implies(!rec.persist, rec.dataLen <= i) && implies(rec.persist, len(rec.data) <= rec.groups[i].begin)
+//@   modifies elems(rec.groups)
